@@ -116,6 +116,10 @@ func runC16(c *Ctx) {
 			return
 		}
 		v := CheckTunnel(c, t, tw.MC, "C16")
+		if vi := c.S.Viol; vi != nil && vi.Oracle == "C03" && vi.Sig == "wrong-status" {
+			// "host-policy denial [is] reported by [its] MS-TSGU status code" is C16's clause too
+			vi.Oracle = "C16"
+		}
 		if c.S.Viol != nil {
 			break
 		}
